@@ -39,6 +39,7 @@ pub fn info() -> PropInfo {
             "input entries have unique attribute names (DebuggingInformationEntry::set replaces a duplicate)",
             "convert_address is the identity (Address::Constant)",
             "known findings skipped by marked constants in props/c12_corpus.rs: SKIP_IMPLICIT_CONST_FILE_INDEX (gcc -gdwarf-5 executables are only observed by the stream known.implicit_const_file: DW_AT_decl_file encoded as DW_FORM_implicit_const keeps its file index although the file table is renumbered) and SKIP_GNU_LOCVIEWS (gcc corpus objects are compiled with -gno-variable-location-views because Dwarf::from deliberately drops DW_AT_GNU_locviews; stream known.gnu_locviews keeps observing the drop)",
+            "corpus: executables with type units (-fdebug-types-section) and DWARF 5 skeleton files are only observed (ONLY_OBSERVE_UNSUPPORTED_UNIT_KINDS in props/c12_corpus.rs, counters known.unit_kind.*): gimli::write only writes DW_UT_compile units, Dwarf::from leaves .debug_types unconverted and turns type / skeleton units into compile units",
             "corpus: compilers only supply input (tool failures are inconclusive); the judgement is the same dump equality as for generated inputs, Err is acceptable and counted (class.corpus*.err); .eh_frame is read with the section placed at address 0 before and after conversion",
         ],
         exhaustive_subspaces: &[
